@@ -122,8 +122,31 @@ def run_bounded(chk):
                 accepted = True
             except ValueError:
                 accepted = False
+            except Exception as e:  # noqa: BLE001  a constructor may only raise ValueError
+                accepted = False
+                fails.append((f"constructor_raised_{type(e).__name__}_instead_of_ValueError", {"vertices": verts, "exception": f"{type(e).__name__}: {e}"[:160]}))
             if accepted != (kind == "simple"):
                 fails.append((f"Polygon:{kind}:{cyc}", {"vertices": verts, "exact_classification": kind, "accepted": accepted}))
+    # the classification does not depend on where the polygon sits (fixed: simplicity test made translation invariant)
+    far_cases = [("arrow", [(0, 0), (4, 1), (0, 2), (1, 1)], "simple"), ("L", [(0, 0), (3, 0), (3, 1), (1, 1), (1, 3), (0, 3)], "simple"),
+                 ("bowtie", [(0, 0), (4, 0), (0, 2), (4, 2)], "crossing"), ("crossed_pentagon", [(0, 0), (4, 0), (1, 3), (2, -1), (4, 3)], "crossing")]
+    for nm, cyc, kind in far_cases:
+        for T in ((1.0e5 + 0.37, -2.0e5 + 0.11), (1.0e6 + 0.37, -2.0e6 + 0.11), (-3.0e7 + 0.5, 5.0e7 - 0.25)):
+            for rev in (False, True):
+                n_eval += 1
+                cc = list(reversed(cyc)) if rev else cyc
+                verts = [[float(x) + T[0], float(y) + T[1], 0.0] for x, y in cc]
+                try:
+                    sh.Polygon(verts)
+                    accepted = True
+                except ValueError:
+                    accepted = False
+                except Exception as e:  # noqa: BLE001  a constructor may only raise ValueError
+                    accepted = False
+                    fails.append((f"constructor_raised_{type(e).__name__}_instead_of_ValueError", {"vertices": verts, "exception": f"{type(e).__name__}: {e}"[:160]}))
+                if accepted != (kind == "simple"):
+                    fails.append((f"Polygon:{kind}:{nm}/offset={T[0]:.3g},{T[1]:.3g}{'/reversed' if rev else ''}",
+                                  {"vertices": verts, "exact_classification": kind, "accepted": accepted}))
     # planarity, fewer than three, duplicates
     L = [[0.0, 0, 0], [3, 0, 0], [3, 1, 0], [1, 1, 0], [1, 3, 0], [0, 3, 0]]
     cases = [("planar L", L, True), ("lifted vertex (2% of size)", [p[:] for p in L[:-1]] + [[0.0, 3.0, 0.06]], False),
